@@ -144,7 +144,9 @@ class C03(C20):
 
     def run_ending(self, case, code, q, st, ref, it, ending):
         kind = ending['kind']
-        k = ending['k'] % (len(ref) + 1)
+        kk = ending['k']
+        n_ref = len(ref)
+        k = {0: 0, 1: min(1, n_ref), 2: n_ref // 2, 3: max(0, n_ref - 1), 4: n_ref}.get(kk, kk % (n_ref + 1))
         gc.collect()
         stale = impl.bound_variables()
         if stale:
@@ -194,7 +196,8 @@ class C03(C20):
                         pass
                     bound_at_end = cnt.get('bound', 0)
                     # the caller still holds g here, as in the documented usage
-                    if out and out != ref[:len(out)]:
+                    n_common = min(len(out), len(ref))
+                    if out[:n_common] != ref[:n_common] or (st == 'done' and len(out) > len(ref)):
                         return ('answers-differ', 'answers seen by the projection %r expected prefix of %r' % (C.answers_view(out), C.answers_view(ref)))
                     out = out[:k]
                 else:
